@@ -16,6 +16,7 @@ import (
 	"golang.org/x/telemetry/internal/counter"
 	"golang.org/x/telemetry/internal/telemetry"
 	"golang.org/x/telemetry/internal/upload"
+	"golang.org/x/telemetry/internal/verifh/shim/vtime"
 	. "golang.org/x/telemetry/internal/verifh/vhlib"
 )
 
@@ -335,6 +336,60 @@ func caseRealClock() {
 	out.Case(true, "realclock", I(t0.Unix()), I(t1.Unix()), H(wk), errs, I(b.Unix()), I(e.Unix()), I(int64(off)))
 }
 
+// timer: the rotation chain of a long-lived process.  rotate() opens the file
+// and arms a timer for the recorded end; the harness (which records the timers,
+// shim vtime) moves the clock to the end and fires the timer, several weeks in
+// a row, incrementing in between.
+func caseTimer() {
+	now0 := genNow()
+	if now0.Year() > 9000 {
+		now0 = now0.AddDate(-100, 0, 0)
+	}
+	wd := rnd.Intn(7)
+	dir := setupDir([]byte(fmt.Sprintf("%d\n", wd)), false)
+	defer os.RemoveAll(dir)
+	now := now0
+	counter.CounterTime = func() time.Time { return now }
+	vtime.ResetAll()
+	f := counter.VerifNewFile()
+	f.Rotate()
+	c := f.NewCounter("c")
+	stages := 2 + rnd.Intn(3)
+	fields := []string{"timer", I(now0.Unix()), I(int64(wd)), I(int64(stages))}
+	for k := 0; k < stages; k++ {
+		b, e := f.Span()
+		n := 1 + rnd.Intn(5)
+		c.Add(int64(n))
+		pend := vtime.Pending()
+		// the timer fires at the recorded end, or a little later
+		fire := e.Add(Pick(rnd, []time.Duration{0, time.Nanosecond, time.Second, time.Hour, 30 * time.Hour}))
+		fields = append(fields, I(int64(len(pend))), I(b.Unix()), I(e.Unix()), I(int64(n)), I(fire.Unix()))
+		now = fire
+		for _, t := range pend {
+			vtime.Fire(t)
+		}
+	}
+	b, e := f.Span()
+	n := 1 + rnd.Intn(5)
+	c.Add(int64(n))
+	fields = append(fields, I(int64(len(vtime.Pending()))), I(b.Unix()), I(e.Unix()), I(int64(n)))
+	f.Close()
+	vtime.ResetAll()
+	got := counts(telemetry.Default.LocalDir())
+	keys := make([]string, 0, len(got))
+	for k := range got {
+		keys = append(keys, k)
+	}
+	sort.Strings(keys)
+	fields = append(fields, I(int64(len(keys))))
+	for _, k := range keys {
+		p := strings.SplitN(k, "|", 2)
+		fields = append(fields, HS(p[0]), HS(p[1]), U(got[k]))
+	}
+	out.Note("rotation-chain")
+	out.Case(true, fields...)
+}
+
 // upload: a real counter file, then the real uploader (mode local) with a
 // start time relative to the end instant.
 func caseUpload() {
@@ -347,6 +402,28 @@ func caseUpload() {
 	defer os.RemoveAll(dir)
 	telemetry.Default.SetModeAsOf("local", now.Add(-400*24*time.Hour))
 	counter.CounterTime = func() time.Time { return now }
+	if rnd.Intn(2) == 0 {
+		// an earlier life of the same file name in the same process: created under
+		// another week-end setting, looked at by an upload run that leaves it (its
+		// end is ahead), then the data is reset.  The file made below has the same
+		// name and another recorded end; the run below must judge it by that end.
+		wd0 := (wd + 1 + rnd.Intn(6)) % 7
+		os.WriteFile(filepath.Join(telemetry.Default.LocalDir(), "weekends"), []byte(fmt.Sprintf("%d\n", wd0)), 0666)
+		f0 := counter.VerifNewFile()
+		f0.Rotate1()
+		_, e0 := f0.Span()
+		f0.NewCounter("c").Add(1)
+		name0 := f0.CurrentName()
+		f0.Close()
+		u0 := upload.VerifNewUploader(dir, "http://127.0.0.1:1/", now, nil, "v0.0.0-0", nil)
+		u0.Run()
+		_, statErr := os.Stat(name0)
+		out.Note("upload-earlier-life-of-the-name")
+		out.Case(true, "upload", I(now.Unix()), I(int64(wd0)), I(e0.Unix()), I(now.Unix()), I(int64(now.Nanosecond())),
+			B(statErr != nil), I(0), HS(""))
+		os.Remove(name0)
+		os.WriteFile(filepath.Join(telemetry.Default.LocalDir(), "weekends"), []byte(fmt.Sprintf("%d\n", wd)), 0666)
+	}
 	f := counter.VerifNewFile()
 	f.Rotate1()
 	_, e := f.Span()
@@ -417,6 +494,8 @@ func main() {
 		switch {
 		case i%50 == 49:
 			caseRealClock()
+		case i%25 == 24:
+			caseTimer()
 		case i%10 < 4:
 			caseSpan()
 		case i%10 < 5:
